@@ -239,3 +239,74 @@ Section OvSib.
       unfold roots_ov. rewrite on_list_cons. reflexivity.
   Qed.
 End OvSib.
+
+(* ------------------------------------------------------------------ *)
+(** * The next_sibling walk over the top-level entries of a unit with ignored-class overrides *)
+Section UnitOvSib.
+  Variables (dbg bigend types : bool) (uoff : N) (h : uheader) (codes : coding) (ov : N -> option N)
+            (t : tree) (f : list tree) (pad : nat) (tbl : abbrevs).
+  Let e := unit_enc bigend h.
+  Let hl := header_len h.
+  Let body := enc_forest_ov codes ov bigend hl (t :: f) pad.
+  Let hdr := parsed_header bigend types uoff h body.
+  Hypothesis He : addr_size_ok e.
+  Hypothesis Hlen : hl + nlen body < two63.
+  Hypothesis Hcov : all_covered tbl codes (t :: f).
+  Hypothesis Hok : forest_ok codes e (t :: f).
+  Hypothesis Hfit : sibs_fit_ov codes ov hl (t :: f).
+  Hypothesis Hig : Forall (ig codes ov (hl + nlen body)) (on_list (placed codes) (tree_size codes) hl (t :: f)).
+
+  Lemma siblings_ov :
+    exists c c1, entries dbg hdr = Ok c /\ next_entry dbg e tbl c = Ok (SOk true c1) /\
+                 c_cur c1 = root_die_ov codes ov hl 0 t /\
+                 siblings_all (cursor_fuel c1) dbg e tbl c1 = Ok (roots_ov codes ov (hl + tree_size codes t) 0 f, None).
+  Proof.
+    set (l := evs_list_ov codes ov bigend 0 hl (t :: f) ++ pad_evs (hl + forest_size codes (t :: f)) 0 pad).
+    assert (Hfacts : Forall (tree_facts codes ov bigend) (t :: f))
+      by (apply Forall_forall; intros k _; apply evs_ov_facts).
+    destruct (list_facts codes ov bigend 0 (t :: f) hl Hfacts) as (B & L & C & Ee).
+    assert (Hb : xbytes l = body).
+    { unfold l, body, enc_forest_ov. rewrite xbytes_app, B, pad_evs_bytes. reflexivity. }
+    assert (Hp : Forall (pk codes ov e tbl (hl + nlen body)) (on_list (placed codes) (tree_size codes) hl (t :: f))).
+    { unfold all_covered in Hcov. unfold forest_ok in Hok. unfold sibs_fit_ov in Hfit.
+      rewrite Forall_forall in *. intros p Hin. split; [split; [|split]|].
+      - apply Hcov. rewrite <- (placed_list_nodes codes (t :: f) hl). apply (in_map snd) in Hin. exact Hin.
+      - apply Hok. rewrite <- (placed_list_nodes codes (t :: f) hl). apply (in_map snd) in Hin. exact Hin.
+      - apply Hfit. exact Hin.
+      - apply Hig. exact Hin. }
+    assert (Hev : Forall (ev_ok dbg e tbl) l).
+    { unfold l. apply Forall_app. split; [|apply pad_evs_ok].
+      change bigend with (be e).
+      apply (evs_list_ov_ok_of codes ov dbg e tbl 0 (t :: f) hl).
+      - apply Forall_forall. intros k _ d o. apply evs_ov_ok. exact He.
+      - eapply Forall_impl; [|exact Hp]. intros p [H _]. exact H. }
+    assert (Hch : chain hl 0 l).
+    { unfold l. apply chain_app. split; [exact C|]. rewrite Ee, L. apply pad_evs_chain. }
+    pose proof (at_chain_init dbg e tbl l hl (hl + nlen body) Hev Hch ltac:(rewrite Hb; reflexivity) Hlen) as Hat.
+    rewrite Hb in Hat.
+    unfold l, evs_list_ov in Hat. rewrite on_list_cons, evs_ov_tail in Hat.
+    fold (evs_list_ov codes ov bigend 0 (hl + tree_size codes t) f) in Hat.
+    rewrite <- !app_assoc in Hat. cbn [app] in Hat. change bigend with (be e) in Hat.
+    set (m := pad_evs (hl + forest_size codes (t :: f)) 0 pad) in *.
+    set (c := mkCur (mkRaw body (hl + nlen body) 0) null_die).
+    change (mkRaw body (hl + nlen body) 0) with (c_raw c) in Hat.
+    destruct (at_chain_step _ _ _ _ _ _ _ _ Hat) as (_ & Hat1 & Ho & _ & _).
+    cbn [head_ev_ov x_post x_die] in Hat1, Ho.
+    exists c. eexists. split; [apply entries_parsed; exact Hlen|].
+    split; [apply (next_entry_chain _ _ _ _ _ _ _ _ Hat)|]. cbn [head_ev_ov x_die x_post c_cur].
+    split; [reflexivity|].
+    apply (siblings_iter_ov codes ov dbg e tbl (hl + nlen body) [] 0%Z m); try assumption; try reflexivity.
+    - unfold m. destruct pad as [|p]; [left; split; reflexivity|right; cbn [pad_evs]; eexists; eexists; reflexivity].
+    - destruct Hat as [_ _ _ _ Hle _ _].
+      rewrite xbytes_cons in Ho, Hle. cbn [head_ev_ov x_bytes] in Ho, Hle.
+      rewrite <- app_assoc, nlen_app, head_bytes_ov_len in Ho, Hle.
+      change (d_offset (root_die_ov codes ov hl 0 t)) with hl in Ho.
+      pose proof (kids_off_ge codes hl t). lia.
+    - unfold cursor_fuel. cbn [c_raw r_in].
+      assert (Hf2 : Forall (tree_facts codes ov (be e)) f)
+        by (apply Forall_forall; intros k _; apply evs_ov_facts).
+      destruct (list_facts codes ov (be e) 0 f (hl + tree_size codes t) Hf2) as (_ & L2 & _ & _).
+      pose proof (length_le_forest_size codes f) as Lf.
+      rewrite !xbytes_app, !app_length. unfold nlen in *. lia.
+  Qed.
+End UnitOvSib.
